@@ -51,11 +51,16 @@ def validGroupName : Str → Bool
   | [] => false
   | c :: cs => isCaptureChar c true && cs.all (isCaptureChar · false)
 
+/-- `\w` is Unicode-aware in the crate: every non-ASCII char the generator uses is a letter, so the stand-in
+takes all of U+0080.. as word chars (`\d`, `\s`: ASCII; the generator uses no other digits / spaces with them). -/
+def wordRanges : List (Char × Char) :=
+  [('a', 'z'), ('A', 'Z'), ('0', '9'), ('_', '_'), (Char.ofNat 128, Char.ofNat 0x10FFFF)]
+
 def perlClass (c : Char) : Option (Bool × List (Char × Char)) :=
   if c = 'd' then some (false, [('0', '9')])
   else if c = 'D' then some (true, [('0', '9')])
-  else if c = 'w' then some (false, [('a', 'z'), ('A', 'Z'), ('0', '9'), ('_', '_')])
-  else if c = 'W' then some (true, [('a', 'z'), ('A', 'Z'), ('0', '9'), ('_', '_')])
+  else if c = 'w' then some (false, wordRanges)
+  else if c = 'W' then some (true, wordRanges)
   else if c = 's' then some (false, [(' ', ' '), ('\t', '\r')])
   else if c = 'S' then some (true, [(' ', ' '), ('\t', '\r')])
   else none
